@@ -101,6 +101,10 @@ func isCustomMsg(msg sdk.Msg) bool {
 func (m *vestingMonitor) Init(r *kernel.Run) {
 	m.lineage = map[string]vtypes.VestingAccountTrace{}
 	for _, t := range r.Chain.App.CfevestingKeeper.GetAllVestingAccountTrace(r.Chain.Ctx()) {
+		// the model knows accounts, not spellings: a genesis file may write an address in upper case
+		if a, err := sdk.AccAddressFromBech32(t.Address); err == nil {
+			t.Address = a.String()
+		}
 		m.lineage[t.Address] = t
 	}
 	m.lineageInit = true
@@ -513,8 +517,11 @@ func (m *vestingMonitor) checkC08(r *kernel.Run, tx *kernel.Tx, msg sdk.Msg, res
 		} else {
 			r.Stats.Inc("probe.send_no_restart")
 			le := p.LockEnd.Unix()
-			startOK := cva.StartTime == le || (now.After(p.LockEnd) && cva.StartTime == now.Unix())
-			if cva.EndTime != le || !startOK {
+			if now.After(p.LockEnd) {
+				r.Stats.Inc("probe.send_no_restart_after_lock_end")
+			}
+			if cva.EndTime != le || cva.StartTime != le { // "both at the pool's lock end", also when that lies in the past
+
 				r.Violate("C08", "pool-send", "no-restart-schedule", "send without restart: schedule [%d,%d], pool lock end %d (now %d)", cva.StartTime, cva.EndTime, le, now.Unix())
 			}
 		}
